@@ -239,7 +239,7 @@ def explore(ctx):
     cases = []
     default = {a: v[0] for a, v in c13.AXES}
     i = 0
-    for cur in ('none', 'merge_split', 'reassign', 'swap'):
+    for cur in ('none', 'merge_split', 'reassign', 'swap', 'exchange'):
         for feat in ('sparse', 'absent', 'noind'):
             for wh in ('mixing', 'absent'):
                 for f in (1, 2.5):
